@@ -1,4 +1,5 @@
 import DashLive.Lemmas.Events
+import DashLive.Lemmas.Scte35
 /-!
 # C14 – timed events are delivered exactly once and decode to their schedule
 
@@ -294,6 +295,37 @@ theorem emsg_exactly_once (s : Sched) (hi : 0 < s.interval) (repTs : Int)
     · exact cap_mono s (firstIdx_mono s hi (by omega))
     · exact cap_mono s (firstIdx_mono s hi hord)
 
+/-- does segment `g`'s event-timebase interval contain scheduled event `k` -/
+def carries (s : Sched) (repTs : Int) (k : Int) (g : Seg) : Bool :=
+  decide (0 ≤ k ∧ segStart s repTs g ≤ s.start + k * s.interval ∧
+    s.start + k * s.interval < segEnd s repTs g ∧ (s.count > 0 → k < s.count))
+
+/-- **how often is an event delivered** – for *any* run of segment requests
+(contiguous or not): event `k` is carried once for every segment whose
+event-timebase interval contains its time (and never if it is not in the
+schedule).  Exactly-once ⇔ exactly one interval contains it; a gap between two
+intervals loses the events in it, an overlap duplicates them (ledger D13a). -/
+theorem emsg_delivery_count (s : Sched) (hi : 0 < s.interval) (repTs : Int) (segs : List Seg) (k : Int) :
+    ((runEvents s repTs segs).map (·.id)).count k = (segs.filter (carries s repTs k)).length := by
+  induction segs with
+  | nil => simp [runEvents]
+  | cons g rest ih =>
+    unfold runEvents at ih ⊢
+    rw [List.flatMap_cons, List.map_append, List.count_append, ih, List.filter_cons]
+    have hnd : ((scheduled s (segStart s repTs g) (segEnd s repTs g)).map (·.id)).Nodup :=
+      (scheduled_sorted s _ _).imp (fun hab => Int.ne_of_lt hab)
+    have hm : k ∈ (scheduled s (segStart s repTs g) (segEnd s repTs g)).map (·.id) ↔
+        carries s repTs k g = true := by
+      unfold scheduled carries
+      rw [List.map_map]
+      have : ((fun e : Ev => e.id) ∘ fun k => (⟨k, evTime s k⟩ : Ev)) = id := rfl
+      rw [this, List.map_id, decide_eq_true_eq]
+      exact mem_cap_range s hi _ _ k
+    rw [hnd.count]
+    by_cases hk : carries s repTs k g = true
+    · rw [if_pos (hm.mpr hk), if_pos hk, List.length_cons]; omega
+    · rw [if_neg (fun h => hk (hm.mp h)), if_neg hk]; omega
+
 /-- media-level statement of the hypothesis: a run in which every segment starts
 where the previous one ended *in the media timebase* (true inside a loop of the
 source, and across a loop when the representation is as long as the stream's
@@ -373,8 +405,8 @@ def exSched : Sched :=
   { start := 25, interval := 10, count := 5, duration := 3, timescale := 100, version := 0,
     inband := true }
 
-/-- three consecutive 4-second segments of a 240 Hz representation: event-timebase
-intervals [0,40) [40,80) [80,120)… wait: 960·100/240 = 400, so [0,400) … -/
+/-- three consecutive segments of 96 ticks of a 240 Hz representation (0.4 s each):
+event-timebase (100 Hz) intervals [0,40) [40,80) [80,120) -/
 def exRun : List Seg := [⟨0, 96⟩, ⟨96, 96⟩, ⟨192, 96⟩]
 
 example : Contiguous exSched 240 exRun := by decide
@@ -401,9 +433,15 @@ example : ¬ Contiguous { exSched with start := 31, count := 0 } 240 [⟨192, 96
 example : (runEvents { exSched with start := 31, count := 0 } 240 [⟨192, 96⟩, ⟨293, 96⟩]).map (·.id)
     = [5, 6, 7, 8, 10, 11, 12, 13] := by decide
 
-/-- D13c: the loop *without* the count check of lines 98-100 (the code before
-fix a993bc6 = `emsgLoop` entered one step later) delivered event id 3 of a
-3-event schedule; the repaired function does not. -/
+/-- … and with negative drift (the next loop starts at 283, before the previous
+segment's end 288) the intervals [80,120) and [117,157) overlap and the event at
+time 118 (id 9 of a schedule starting at 28) is delivered twice -/
+example : ((runEvents { exSched with start := 28, count := 0 } 240 [⟨192, 96⟩, ⟨283, 96⟩]).map (·.id)).count 9 = 2 := by
+  decide
+
+/-- D13c: before fix a993bc6 (no count check at the head of the loop) the segment
+[30, 40) of a 3-event schedule (times 0, 10, 20) carried an unscheduled event with
+id 3; the repaired function carries nothing. -/
 example : createEmsg { exSched with start := 0, count := 3 } 100 ⟨30, 10⟩ = .ok [] := by decide
 
 /-- D13b: `interval = 0` is refused … -/
@@ -413,3 +451,170 @@ example : emsgLoop { exSched with interval := 0, count := 0 } 0 40 1000 0 25 = n
   emsgLoop_diverges_interval_zero _ rfl (by decide) 0 40 25 (by decide) (by decide) 1000 0
 
 end DashLive.Events
+
+/-!
+Part 2: the emsg box codec, CRC-32/MPEG-2 and the SCTE-35 splice_info_section –
+quantified over every field value inside its bit width, every message, every
+well-formed signal (`Signal.wf`, Lemmas/Scte35.lean), every schedule.
+-/
+namespace DashLive.Events
+
+/-- **emsg v0 / v1 round trip**: parsing the encoded box gives the box back
+(every field inside its width – `EmsgBox.wf`) -/
+theorem emsg_box_roundtrip (b : EmsgBox) (h : b.wf) : parseEmsg (encodeEmsg b) = some b :=
+  parseEmsg_encodeEmsg b h
+
+example : EmsgBox.wf ⟨1, 0, [0x75, 0x72, 0x6e], [0x30], 100, 2 ^ 40, 200, 7, [1, 2, 3]⟩ := by
+  refine ⟨Or.inr rfl, by decide, by decide, by decide, by decide, by decide, by decide, by decide,
+    by decide, by decide⟩
+
+end DashLive.Events
+
+namespace DashLive.Crc32
+open DashLive.Bits
+
+/-- **CRC residue**: for every message `m`, the CRC-32/MPEG-2 of `m` followed by
+its own CRC (32 bits, MSB first) is 0 – this is what `crc_valid` tests.
+(Shift-register invariant `run_self`, plain induction.) -/
+theorem crc_residue (m : Bits) : crc32 (m ++ crcBits m) = 0 := by
+  unfold crc32 crcBits
+  rw [run_residue, bitsToNat_replicate_false]
+
+/-- the CRC field is 32 bits wide -/
+theorem crc_width (m : Bits) : (crcBits m).length = 32 := crcBits_length m
+
+/-- a corrupted CRC is detected: the check value of "123456789" is 0x0376E6E7 and
+flipping its last bit gives a non-zero residue -/
+example : crc32 (putBytes [0x31, 0x32, 0x33, 0x34, 0x35, 0x36, 0x37, 0x38, 0x39]) = 0x0376E6E7 := by decide +kernel
+example : crc32 (putBytes [0x31, 0x32, 0x33, 0x34, 0x35, 0x36, 0x37, 0x38, 0x39, 0x03, 0x76, 0xE6, 0xE6]) ≠ 0 := by
+  decide +kernel
+
+end DashLive.Crc32
+
+namespace DashLive.Scte35
+open DashLive.Bits DashLive.Events
+
+/-- **SCTE-35 round trip.** For every well-formed signal (all header fields,
+`splice_null` / `time_signal` / `splice_insert` in program, component and cancelled
+form, any list of avail / segmentation / time descriptors, every value inside its
+bit width): parsing the encoding returns the signal itself, `section_length`,
+`splice_command_length`, `descriptor_loop_length` and every `descriptor_length`
+equal to the encoded byte counts, and `crc_valid = True`. -/
+theorem scte35_roundtrip (s : Signal) (h : s.wf = true) :
+    Signal.parse s.encode = some
+      { sig := s, sectionLength := s.sectionLength, spliceCommandLength := s.command.bytes,
+        spliceCommandType := s.command.type, descriptorLoopLength := s.loopBytes,
+        descriptorLengths := s.descriptors.map (fun d => 4 + d.bodyBytes),
+        crc := Crc32.crc32 s.encBody, crcValid := true } :=
+  Signal.parse_encode s h
+
+/-- **the length fields are the encoded lengths**: the section is
+`3 + section_length` bytes, the command `splice_command_length` bytes, the
+descriptor loop `descriptor_loop_length` bytes and descriptor `d` is
+`2 + descriptor_length` bytes (and the encoding is a whole number of bytes) -/
+theorem scte35_lengths (s : Signal) :
+    s.encode.length = 8 * (3 + s.sectionLength) ∧
+    s.command.enc.length = 8 * s.command.bytes ∧
+    (s.descriptors.flatMap Descriptor.flat).length = 8 * s.loopBytes ∧
+    ∀ d ∈ s.descriptors, d.flat.length = 8 * (2 + (4 + d.bodyBytes)) := by
+  refine ⟨?_, s.command.enc_length, s.loop_length, fun d _ => ?_⟩
+  · unfold Signal.encode
+    simp only [Signal.encBody_eq, List.length_append, Crc32.crcBits_length, s.bodyFlat_length]
+    unfold Signal.sectionLength; omega
+  · rw [d.flat_length]; omega
+
+/-- **the SCTE-35 payload of a scheduled event decodes to the schedule**: whenever
+`create_binary_signal(event_id, presentation_time)` can be encoded, parsing the
+bytes gives a valid CRC and a `splice_insert` whose `splice_event_id` is the event
+id, whose PTS is `presentation_time · 90000 // timescale` reduced to 33 bits, and
+whose break duration is `duration · 90000 // timescale` with `auto_return` on even
+ids. -/
+theorem scte35_matches_schedule (s : Sched) (programId eventId pt : Int) (data : Bits)
+    (h : scte35Payload s programId eventId pt = some data) :
+    ∃ p si, Signal.parse data = some p ∧ p.crcValid = true ∧ p.sig.command = .insert si ∧
+      (si.eventId : Int) = eventId ∧
+      si.spliceTime = some ⟨some (schedPts s pt)⟩ ∧
+      si.breakDuration = some ⟨Int.fmod eventId 2 == 0, schedBreak s⟩ := by
+  unfold scte35Payload at h
+  cases hc : createBinarySignal s programId eventId pt with
+  | none => rw [hc] at h; cases h
+  | some sig =>
+    rw [hc] at h
+    injection h with h
+    subst h
+    obtain ⟨hwf, h0, si, hcmd, hid, _, hst, hbd, _⟩ := createBinarySignal_spec s programId eventId pt sig hc
+    refine ⟨_, si, scte35_roundtrip sig hwf, rfl, hcmd, ?_, hst, hbd⟩
+    rw [hid]; omega
+
+/-- the PTS is the schedule's instant in 90 kHz ticks, modulo 2³³ -/
+theorem schedPts_eq (s : Sched) (pt : Int) (hts : 0 < s.timescale) :
+    (schedPts s pt : Int) = (pt * 90000 / s.timescale) % 2 ^ 33 := by
+  unfold schedPts
+  rw [Int.fmod_eq_emod_of_nonneg _ (by decide : (0:Int) ≤ 2 ^ 33), pydiv_pos _ hts]
+  have := Int.emod_nonneg (pt * 90000 / s.timescale) (by decide : (2:Int) ^ 33 ≠ 0)
+  omega
+
+/-- when is there a payload: exactly when every derived value fits its field -/
+theorem scte35_payload_exists (s : Sched) (programId eventId pt : Int)
+    (hts : s.timescale ≠ 0) (hid : 0 ≤ eventId ∧ eventId < 2 ^ 32)
+    (hd : 0 ≤ pydiv (s.duration * 90000) s.timescale ∧ pydiv (s.duration * 90000) s.timescale < 2 ^ 33)
+    (hp : 0 ≤ programId ∧ programId < 2 ^ 16) (hc : s.count > 0 → eventId < s.count) :
+    (scte35Payload s programId eventId pt).isSome = true := by
+  unfold scte35Payload createBinarySignal
+  simp only [Option.isSome_map]
+  have hav : ¬ ((if s.count > 0 ∧ pydiv s.count 2 < 255 then 1 + pydiv eventId 2 else (0 : Int)) ≥ 256) := by
+    split
+    · rename_i hn
+      have := hc hn.1
+      have h2 : pydiv eventId 2 = eventId / 2 := pydiv_pos _ (by decide)
+      have h3 : pydiv s.count 2 = s.count / 2 := pydiv_pos _ (by decide)
+      omega
+    · decide
+  have hg : ¬ (s.timescale = 0 ∨ eventId < 0 ∨ eventId ≥ 2 ^ 32 ∨ pydiv (s.duration * 90000) s.timescale < 0 ∨
+      pydiv (s.duration * 90000) s.timescale ≥ 2 ^ 33 ∨ programId < 0 ∨ programId ≥ 2 ^ 16 ∨
+      (if s.count > 0 ∧ pydiv s.count 2 < 255 then 1 + pydiv eventId 2 else (0 : Int)) ≥ 256) := by
+    omega
+  simp only [hg, if_false, Option.isSome_some]
+
+/-! ### non-vacuity and the excluded structures (ledger D13i) -/
+
+/-- a signal using most of the modelled syntax -/
+def exSignal : Signal :=
+  { tableId := 0xFC, sectionSyntaxIndicator := false, privateIndicator := true, sapType := 3,
+    protocolVersion := 0, encryptedPacket := false, encryptionAlgorithm := 0, ptsAdjustment := 2 ^ 33 - 1,
+    cwIndex := 0, tier := 0xFFF,
+    command := .insert { eventId := 2 ^ 32 - 1, cancel := false, outOfNetwork := true, immediate := false,
+                         spliceTime := none, components := [⟨1, ⟨some 5⟩⟩, ⟨255, ⟨none⟩⟩],
+                         breakDuration := some ⟨true, 2 ^ 33 - 1⟩, uniqueProgramId := 65535, availNum := 255,
+                         availsExpected := 0 },
+    descriptors := [.avail 0x43554549 309,
+                    .segmentation 0x43554549
+                      { eventId := 7, cancel := false, deliveryNotRestricted := false,
+                        webDeliveryAllowed := false, noRegionalBlackout := true, archiveAllowed := true,
+                        deviceRestrictions := 2, duration := some (2 ^ 40 - 1), upidType := 8,
+                        upid := [1, 2, 3, 4, 5, 6, 7, 8], typeId := 0x36, segmentNum := 0,
+                        segmentsExpected := 0, subSegmentNum := 3, subSegmentsExpected := 4 },
+                    .time 1 2 3 4] }
+
+example : exSignal.wf = true := by decide +kernel
+example : (createBinarySignal exSched 1620 3 55).isSome = true := by decide +kernel
+
+/-- excluded: a program splice that is *immediate* – the encoder drops the
+`splice_time`, so parsing cannot give the object back (D13i) -/
+def exImmediate : Signal :=
+  { exSignal with
+    command := .insert { eventId := 7, cancel := false, outOfNetwork := true, immediate := true,
+                         spliceTime := some ⟨some 5⟩, components := [], breakDuration := none,
+                         uniqueProgramId := 0, availNum := 0, availsExpected := 0 },
+    descriptors := [] }
+
+example : exImmediate.wf = false ∧ (Signal.parse exImmediate.encode).map (·.sig) ≠ some exImmediate := by
+  decide +kernel
+
+/-- excluded: `encrypted_packet = 1` – the encoder writes no `E_CRC_32`, the
+parser expects one and runs out of bits (D13i) -/
+def exEncrypted : Signal := { exSignal with encryptedPacket := true, descriptors := [] }
+
+example : exEncrypted.wf = false ∧ Signal.parse exEncrypted.encode = none := by decide +kernel
+
+end DashLive.Scte35
